@@ -55,6 +55,17 @@ def decorate(plan, seed, p_clock=0.6, p_int=0.6):
     plan['faults'] = out
     for o in ops:
         if o['op'] == 'solve' and rng.random() < 0.4: o['sigint_callback'] = True
+    # stop, save, and resume in a 'new process' (or carry on with a copy): limits, termination and exit requests have to
+    # be honoured by the solver that is actually running
+    r2 = sub_rng(seed, 'plan.c05.resume')
+    if r2.random() < 0.25:
+        runs = [i for i, o in enumerate(ops) if o['op'] in ('step', 'solve')]
+        if runs:
+            at = r2.choice(runs) + 1
+            ops.insert(at, {'op': 'saveload'} if r2.random() < 0.75 else {'op': 'copy', 'shallow': r2.random() < 0.7})
+            if not any(o['op'] in ('step', 'solve') for o in ops[at + 1:]):
+                ops.append({'op': 'set', 'what': 'limits', 'arg': [r2.choice([5, 10, 30]), None, True]})
+                ops.append({'op': 'solve'})
     return plan
 
 def _gen_plan(seed, tier):
